@@ -38,7 +38,8 @@ where
       | [] => none
       | k :: s =>
         let one : Option (Op N × List Char) :=
-          if k = 'e' then (num s).map fun (a, s) => (Op.emit a, s)
+          if k = 'z' then some (Op.timeout, s)
+          else if k = 'e' then (num s).map fun (a, s) => (Op.emit a, s)
           else if k = 'b' then (num s).map fun (a, s) => (Op.btp a, s)
           else if k = 't' then (num s).map fun (a, s) => (Op.burn a, s)
           else if k = 'f' then (num s).map fun (a, s) => (Op.fail a, s)
